@@ -299,6 +299,10 @@ pub fn execute(plan: &Plan) -> Outcome {
                     receivers_pub.push(Slot::new("big", client.publish(big, None)));
                     let q0 = PublishPacket::builder("out/q0".to_string(), QualityOfService::AtMostOnce).with_payload(vec![4]).build();
                     receivers_pub.push(Slot::new("q0", client.publish(q0, None)));
+                    // statically invalid operations must be refused at submission (C16) and never reach the wire
+                    let invalid = PublishPacket::builder("bad/#".to_string(), QualityOfService::AtLeastOnce).with_payload(vec![6]).build();
+                    receivers_pub.push(Slot::new("invalid-topic", client.publish(invalid, None)));
+                    receivers_sub.push(Slot::new("invalid-empty-subscribe", client.subscribe(SubscribePacket::builder().build(), None)));
                 }
                 // finished?  everything resolved and the inbound message surfaced -> stop, then close
                 if stop_issued && !close_issued && events.lock().unwrap().iter().filter(|e| *e == "Stopped").count() > 0 && plan.controls.values().any(|c| matches!(c, Control::StopThenStart)) {
@@ -373,6 +377,9 @@ pub fn execute(plan: &Plan) -> Outcome {
             None => { out.results.push(format!("{}:NEVER", name)); out.problem(format!("operation-result-never-delivered ({})", if name.contains("close") { name.as_str() } else { "workload" }), format!("receiver of '{}' still empty although the event loop has ended", name)); }
         }
     }
+    for r in out.results.clone() {
+        if r.starts_with("invalid-") && r.ends_with(":ok") { out.problem("C16:statically-invalid-operation-accepted-by-client-handle", r.clone()); }
+    }
     wait_until(|| callback_count.load(Ordering::SeqCst) >= callbacks_expected, settle);
     let calls = callback_count.load(Ordering::SeqCst);
     out.results.extend(callback_results.lock().unwrap().iter().cloned());
@@ -381,7 +388,7 @@ pub fn execute(plan: &Plan) -> Outcome {
     // with no faults and no early stop/close everything must have succeeded
     let benign = plan.reads.values().all(|d| matches!(d, ReadDev::One | ReadDev::Half | ReadDev::Block)) && plan.writes.values().all(|d| matches!(d, WriteDev::One | WriteDev::AllButOne | WriteDev::Block | WriteDev::Interrupted)) && plan.flush_errors.is_empty() && plan.controls.is_empty() && plan.refuse.is_empty();
     if benign && out.machinery.is_empty() {
-        if out.results.iter().any(|r| !r.ends_with(":ok")) { let r = out.results.clone(); out.problem("operation-failed-under-benign-transport-behaviour", format!("results {:?}", r)); }
+        if out.results.iter().any(|r| !r.ends_with(":ok") && !r.starts_with("invalid-")) { let r = out.results.clone(); out.problem("operation-failed-under-benign-transport-behaviour", format!("results {:?}", r)); }
         if out.connections != 1 { let n = out.connections; out.problem("reconnect-under-benign-transport-behaviour", format!("{} connections", n)); }
         if inbound.lock().unwrap().len() != 1 { let n = inbound.lock().unwrap().len(); out.problem("inbound-publish-not-surfaced-exactly-once", format!("{} times", n)); }
     }
@@ -417,6 +424,7 @@ pub fn judge_wire(out: &mut Outcome, broker: &Broker, big_payload: &[u8], inboun
         for p in connection {
             if let gneiss_mqtt::verif::Pkt::Publish(p) = p {
                 if p.topic == "out/big" { seen_big += 1; if p.payload.as_deref() != Some(big_payload) { out.problem("large-publish-payload-corrupted-on-the-wire", format!("{} bytes on the wire", p.payload.as_ref().map(|b| b.len()).unwrap_or(0))); } }
+                if p.topic == "bad/#" { out.problem("C16:statically-invalid-publish-on-the-wire", "publish to a wildcard topic was transmitted"); }
                 if p.topic == "out/small" && p.payload.as_deref() != Some(&[1u8, 2, 3][..]) { out.problem("small-publish-payload-corrupted", ""); }
             }
         }
